@@ -1,7 +1,9 @@
-PROP = {'suites': ['c05'],
+PROP = {'suites': ['c05', 'c05forge'],
  'clauses': {1: 'a presentation other than the exact issued string (jti alone, forged or altered token) was accepted as a live access token',
              2: 'an access token was accepted after its grant was revoked or invalidated by a replay of the code it came from, its token superseded by a refresh, or its lifetime elapsed',
-             3: 'a refresh token was accepted or reported active after the owning client revoked the grant'},
+             3: 'a refresh token was accepted or reported active after the owning client revoked the grant',
+             4: 'a JWT that is not exactly an issued access-token string (foreign or altered issuer, re-signed claims, time claims outside their window, a key other than the one its kid names, a '
+                'dead or unknown jti, a token of another tenant sharing keys and storage) was accepted as a live access token'},
  'title': 'Only live, server-issued access tokens are ever accepted as access tokens',
  'text': 'Theorems over the model: live_access_iff (for every reachable state of every history and every presented term, IntrospectionInfo - behind /introspect, TokenInfo and TokenInfoFromRequest - '
          'reports an active access token IFF the term is exactly an issued access-token string whose grant the token index still finds and whose lifetime has not elapsed), forged_never_live, '
@@ -9,12 +11,28 @@ PROP = {'suites': ['c05'],
          'histories with issuance in both formats, refresh, revocation by owner/other client, code replay, ticks and presentation of exact / jti-only / seven kinds of forged strings at the three '
          'endpoints and two helpers, compared with the model; the monitor tracks, from the implementation trace alone, which tokens must be dead. Deterministic scenarios (scenarioAcceptorMatrix): '
          'the four acceptors x {live, lifetime elapsed while the grant lives on, access token revoked, refresh token revoked, superseded by a refresh with and without rotation, grant expired, code '
-         'replayed} x {opaque, JWT} x storage flavour.',
- 'note': 'All grant types: the jwt-bearer grant is in the sys model since the jwtbearer extension (Token.jwt_bearer_grant; tokens of authenticated and of the anonymous client, opaque and JWT), the '
-         "generator of suite c05 issues, refreshes, revokes and presents them like every other grant's (move jwtbearer). Theorems are about the hand-written model; JWS verification and the "
-         'UUID/length-99 shape tests are modelled symbolically (the classification by shape is checked on concrete strings by the correspondence). live_access_iff assumes histories shorter than 2^34 '
-         'operations (encoding of never-issued values). KNOWN FINDING K0 (see known_findings.json): revoking an already-expired access token answers 200 and leaves the refresh token of the grant '
-         'working - the last sentence of the property fails for that input on the unchanged tree; the c05 suite replays it on the real provider and reports it as KNOWN-FINDING.',
+         'replayed} x {opaque, JWT} x storage flavour. JWT access tokens and the issuer (Model/AtClaims.v, a guard-by-guard model of token.go validClaims + the jti extraction of its callers): '
+         'at_claims_issuer_bound (validClaims yields a token id ONLY IF the signature verifies under the signature key of the server that the kid names AND iss is a single string equal to the '
+         'configured issuer AND every time claim present is inside its window), forged_issuer_refused (every forgery kind of the suite, applied to any JWT record, is refused by validClaims and by '
+         'the four acceptors), dead_jti_refused, at_claims_key_holder_mints (the converse: what the holder of the signing key mints under the right issuer is accepted), '
+         'at_claims_accepted_passes_monitor_clauses. Suite c05forge, on real providers built with provider.New (two tenants with different issuers sharing signing keys and grant storage; ES256-only '
+         "and PS256+ES256+ES256+encryption-key JWKS; JWT leeway 0/1; /repo's in-memory and a JSON-copy grant storage; issuer with host, path, port; tokens from the code flow with openid and from "
+         "client_credentials): every live token is presented at /introspect, /userinfo, Provider.TokenInfo, Provider.TokenInfoFromRequest (and token.ExtractID on the provider's own configuration) as "
+         "issued (control) and under 29 forgery kinds signed with the SERVER's key - issuer foreign / trailing slash / letter case / scheme / path suffix / absent / empty / array containing the "
+         "right issuer / number / other tenant's, the other tenant's genuine token, exp/nbf/iat outside the window, kid absent / unknown / of another server key / of the encryption key, foreign key "
+         'under the server kid, alg none, edited payload, non-canonical signature, the ID token, unknown / absent jti, lifetime elapsed (real sleep) with exp pushed or removed; each presented string '
+         'is abstracted from its bytes (signer found by verifying under every key) into the record of the model, the five answers are compared with the model (Corr/C05Forge.v check_fcase) and the '
+         "monitor mon_C05F (clause 4) judges the implementation's answers against the clauses of at_claims_issuer_bound; acceptances are also reported Go-side as c05forge:<acceptor>:<kind>.",
+ 'note': 'Theorems are about the hand-written model; JWS verification and the UUID/length-99 shape tests are modelled symbolically (the classification by shape is checked on concrete strings by the '
+         'correspondence). live_access_iff assumes histories shorter than 2^34 operations (encoding of never-issued values). KNOWN FINDING K0 (see known_findings.json): revoking an already-expired '
+         'access token answers 200 and leaves the refresh token of the grant working - the last sentence of the property fails for that input on the unchanged tree; the c05 suite replays it on the '
+         'real provider and reports it as KNOWN-FINDING. c05forge: strings are abstracted by interned numbers, JWS verification by "the key under which the bytes verify" (computed by the harness '
+         'with go-jose on the real bytes). at_claims_issuer_bound assumes a non-empty configured issuer (with an empty one go-jose skips the issuer comparison; the model has that branch). NOT '
+         "judged, because the unchanged code accepts them and the model predicts it (at_claims_key_holder_mints): claims re-signed with the server's own signing key under the RIGHT issuer with a "
+         "live jti - the same claims, claims of token A with the jti of live token B (the answer describes B's grant), exp pushed on a live token (liveness then ends with the grant's token expiry, "
+         "not the forged exp); these are presented on every run and listed in the suite's meta.extra. A token without exp is valid for validClaims (go-jose only checks claims that are present); it "
+         'dies on the grant storage. All grant types: the jwt-bearer grant is in the sys model since the jwtbearer extension (Token.jwt_bearer_grant; tokens of authenticated and of the anonymous '
+         "client, opaque and JWT), the generator of suite c05 issues, refreshes, revokes and presents them like every other grant's (move jwtbearer).",
  'technique': 'Coq proof (equivalence over every reachable state, using the index-freshness invariant proved for every handler; per-request decision rules) tied to the code by differential '
               'correspondence; monitor on implementation traces',
  'design_ref': 'DESIGN.md section 6, C05'}
